@@ -24,8 +24,14 @@ pub enum TVal {
 }
 
 /// bytes of the fixed record used by `TVal::Record`
+#[cfg(feature = "builtin")]
 pub fn example_record_bytes() -> &'static [u8] {
     &crate::sigshapes::corpus().iter().find(|r| !r.ed).expect("corpus holds a secp256k1 record").bytes
+}
+#[cfg(not(feature = "builtin"))]
+pub fn example_record_bytes() -> &'static [u8] {
+    static B: std::sync::OnceLock<Vec<u8>> = std::sync::OnceLock::new();
+    B.get_or_init(|| alloy_rlp::encode(crate::exec::example_record()))
 }
 
 impl TVal {
